@@ -425,6 +425,22 @@ func (e *Engine) solveAll(workdir string, timeout time.Duration, par int) {
 		go func(o *Obligation) {
 			defer wg.Done()
 			defer func() { <-sem }()
+			if o.Quick {
+				ctx, cancel := context.WithTimeout(context.Background(), 4*time.Second)
+				r := runOne(ctx, solverCmds[0], o.File, 3*time.Second)
+				cancel()
+				if r.status != "sat" && r.status != "unsat" {
+					// an inconsistency that z3 5.x does not see quickly may be seen by the old z3
+					ctx2, cancel2 := context.WithTimeout(context.Background(), 4*time.Second)
+					r2 := runOne(ctx2, solverCmds[2], o.File, 3*time.Second)
+					cancel2()
+					if r2.status == "unsat" {
+						r = r2
+					}
+				}
+				o.Status, o.Solver, o.Secs, o.Raw = r.status, r.solver, r.secs, firstLines(r.out, 2)
+				return
+			}
 			to := timeout
 			if o.Cover && to > 6*time.Second {
 				to = 6 * time.Second // vacuity guards only look for a quick refutation
